@@ -3,7 +3,7 @@
 Static part (the proof): translate/effects2v.py regenerates coq/Gen/Effects.v (the effect
 skeleton of every function of EoN/simulation.py, EoN/analytic.py) from /repo's working
 tree; coq/Props/C19.v is recompiled over it (generated obligation closed by vm_compute,
-soundness of the checker in Proofs/EffectsP.v); the per-function verdict (parameters that
+soundness of the checker in Proofs/EffectsSound*.v); the per-function verdict (parameters that
 may be modified, with source lines) is computed by the same checker.
 
 Dynamic part (the tie): every public entry point is called on small inputs with a deep
@@ -18,8 +18,11 @@ CLAIM = dict(
          "base) run inside Coq over coq/Gen/Effects.v -- the effect skeleton of all 132 functions of EoN/simulation.py, analytic.py, regenerated "
          "from /repo on every run by the fail-closed translator translate/effects2v.py -- finds no write of any public entry point that can reach "
          "an object, or the buffer of an object, that existed before the call, except the confirmed defects (x.shape= on caller arrays). The "
-         "abstract heap semantics of the effect language is defined in Coq; soundness of the checker w.r.t. it is only PARTLY mechanised (write "
-         "step, environment order, aliasing: theorems *_partial; the rest of the invariant-preservation proof is stated in a comment, not proved). "
+         "abstract heap semantics of the effect language is defined in Coq (big-step relation, any statement may stop, so all prefixes are covered); "
+         "soundness of the checker w.r.t. it is proved for every program of the statement language (C19_safe_sound: accepted => in every execution from "
+         "every initial heap every logged write is to storage allocated during the call; invariant preservation by every expression and statement, loops "
+         "by the checked post-fixpoint, calls by the depth fuel, out of fuel = rejected), and combined with the generated obligation in "
+         "C19_entry_points_do_not_write_caller_storage (all entry points with no defect on record). "
          "Tie: every public entry point is called on small inputs with deep snapshots (graphs incl. attributes, containers, arrays incl. "
          "shape/dtype/flags) before/after and called again on the same objects; static and dynamic verdicts must agree per function and parameter.",
     design='DESIGN.md section 4, C19; section 2.4(b)',
